@@ -296,7 +296,9 @@ type Recorder struct {
 	// StartMark: take the start offset from the named mark handler's call
 	// (the offset at tee time) instead of the current consumed offset.
 	StartMark string
-	OnDone    func(m *ConnModel, st *RecState)
+	// PrefixOnly: do not demand the whole stream at a clean EOF
+	PrefixOnly bool
+	OnDone     func(m *ConnModel, st *RecState)
 }
 
 func (r *Recorder) Handle(cx *layer4.Connection, next layer4.Handler) error {
@@ -378,7 +380,7 @@ func (r *Recorder) Record(conn net.Conn, m *ConnModel, advance bool) *RecState {
 		lk()
 		aborted := m.Aborted
 		ulk()
-		if !aborted && st.Start+st.Got != len(m.App) {
+		if !aborted && !r.PrefixOnly && st.Start+st.Got != len(m.App) {
 			r.E.S.Fail(r.Tag+"/lost-tail", r.Sig, "%s conn %d: clean EOF after %d bytes from offset %d, but the stream has %d bytes",
 				r.Name, m.ID, st.Got, st.Start, len(m.App))
 		}
